@@ -8,8 +8,8 @@ git apply "$OUT/patch.diff" || { echo "PATCH-DOES-NOT-APPLY"; exit 2; }
 cmake --build _b -j8 > "$OUT/confirm_build.log" 2>&1 || { echo "BUILD-FAILS-WITH-MUTANT"; git checkout -q -- include; exit 1; }
 ctest --test-dir _b -j8 --timeout 900 > "$OUT/confirm_ctest.log" 2>&1
 T=$(grep -E "tests passed|tests failed" "$OUT/confirm_ctest.log" | tail -1)
-g++ -std=c++20 -O2 -I"$WT/include" -I"$WT/_b/include" -isystem /usr/include/eigen3 "$OUT/demo.cpp" -o "$OUT/demo_mut" 2> "$OUT/confirm_demo_build.log"; "$OUT/demo_mut" > "$OUT/confirm_demo_mut.txt" 2>&1; RM=$?
+g++ -std=c++20 -O2 -pthread -I"$WT/include" -I"$WT/_b/include" -isystem /usr/include/eigen3 "$OUT/demo.cpp" -o "$OUT/demo_mut" 2> "$OUT/confirm_demo_build.log"; "$OUT/demo_mut" > "$OUT/confirm_demo_mut.txt" 2>&1; RM=$?
 git checkout -q -- include
-g++ -std=c++20 -O2 -I"$WT/include" -I"$WT/_b/include" -isystem /usr/include/eigen3 "$OUT/demo.cpp" -o "$OUT/demo_base" 2>> "$OUT/confirm_demo_build.log"; "$OUT/demo_base" > "$OUT/confirm_demo_base.txt" 2>&1; RB=$?
+g++ -std=c++20 -O2 -pthread -I"$WT/include" -I"$WT/_b/include" -isystem /usr/include/eigen3 "$OUT/demo.cpp" -o "$OUT/demo_base" 2>> "$OUT/confirm_demo_build.log"; "$OUT/demo_base" > "$OUT/confirm_demo_base.txt" 2>&1; RB=$?
 rm -f "$OUT/demo_mut" "$OUT/demo_base"
 echo "CONFIRM $WT $M : suite='$T' demo_with_change_exit=$RM demo_without_change_exit=$RB"
